@@ -231,7 +231,7 @@ func runC20(c *core.Ctx) {
 			c.Sample("gps-leaps", map[string]interface{}{"utc": l.Add(-500 * time.Millisecond).Format(time.RFC3339Nano), "model_gps_seconds": gpsModelForward(l.Add(-500 * time.Millisecond)).Seconds()})
 		}
 	}
-	n := c.N(50000, 2000000)
+	n := c.N(50000, 40000000)
 	span := time.Date(2100, 1, 1, 0, 0, 0, 0, time.UTC).Sub(gpsEpochUnix)
 	chunk := int64(1000)
 	for b := int64(0); b < n/chunk; b++ {
